@@ -151,6 +151,10 @@ TTY_CAPTURES = ["bare", "![]"]
 TTY_PAIRS_QUICK = [("ext_ok", "ext_fail"), ("ext_fail", "ext_ok"), ("ext_ok", "ext_killed"), ("ext_ok", "nosuch"), ("nosuch", "ext_fail"), ("ext_fail", "ext_fail")]
 
 
+TTY_CAPTURED = [("ext_ok",), ("thr_ok",), ("thr_nest",), ("unthr_nest",), ("ext_ok", "thr_nest"), ("thr_nest", "ext_ok"), ("ext_ok", "ext_ok")]
+TTY_CAPTURED_FORMS = ["bare", "![]", "$()", "!()"]
+
+
 def tty_space(thorough):
     """[(stages, capture, flag)], simplest first."""
     out = []
@@ -158,6 +162,11 @@ def tty_space(thorough):
         for flag in TTY_FLAGS:
             for cap in TTY_CAPTURES:
                 out.append(((k,), cap, flag))
+    # captured forms and a nested capture started from an alias (thread): PopenThread blanks the
+    # terminal's suspend key / switches cbreak on fd 0 and must put both back, on and off the main thread
+    for st in TTY_CAPTURED:
+        for cap in TTY_CAPTURED_FORMS if thorough or len(st) == 1 else ["$()"]:
+            out.append((tuple(st), cap, "none"))
     pairs = list(itertools.product(TTY_KINDS, repeat=2)) if thorough else TTY_PAIRS_QUICK
     for st in pairs:
         for flag in TTY_FLAGS:
@@ -185,6 +194,8 @@ REP = {
     "nonexec": "nosuch",
     "dir": "nosuch",
     "nonexec_rel": "nosuch",
+    "thr_nest": "thr_ok",
+    "unthr_nest": "unthr_ok",
     "thr_raise": "thr_ok",
     "thr_exit": "thr_ok",
     "thr_rc1": "thr_ok",
